@@ -796,7 +796,7 @@ fn build_script(shape: &ScriptShape) -> Vec<u8> {
   }
 }
 
-fn decipher_check(case: &DecipherCase, cx: &Cx) -> CheckResult {
+pub fn decipher_check(case: &DecipherCase, cx: &Cx) -> CheckResult {
   let scripts: Vec<Vec<u8>> = case.outputs.iter().map(build_script).collect();
   let tx = tx_with_scripts(&scripts);
   let got = match crate::runner::catch(|| Runestone::decipher(&tx)) {
